@@ -222,6 +222,7 @@ class CallMixin:
         recv_val: Optional[AVal] = None
         if isinstance(f, ast.Attribute):
             st, recv_val = self.ev(st, f.value)
+            self.none_deref_check(st, f)
         elif not isinstance(f, ast.Name):
             st, _ = self.ev(st, f)
         argvals: List[AVal] = []
